@@ -26,7 +26,11 @@ def witness_items(prop):
             continue
         w = f["witness"]
         decls = [to_tuple(d) for d in w["decls"]]
-        out.append((f, engine.Item("w" + f["id"], decls, text=w.get("text"), opts=w.get("opts"), c20=bool(w.get("c20")))))
+        ents = None
+        if w.get("entities"):
+            ents = [dict(e, enable=to_tuple(e["enable"]) if e.get("enable") is not None else None) for e in w["entities"]]
+        out.append((f, engine.Item("w" + f["id"], decls, text=w.get("text"), opts=w.get("opts"), c20=bool(w.get("c20")),
+                                   entities=ents)))
     return out
 
 
@@ -105,7 +109,7 @@ def run(tier, seed, t0, prop=PROP, n_quick=60, n_thorough=600, opts=None, gen=No
         elif it.status == "violation":
             rep.obligations += 1
             found = bool(it.detail.get("failing_input")) or it.detail.get("kind", "").startswith("compile-")
-            rep.violation({"program": it.text, "decls": it.decls, "options": it.opts, "detail": it.detail,
+            rep.violation({"program": it.text, "decls": it.decls, "entities": it.entities, "options": it.opts, "detail": it.detail,
                            "broken_obligation": "check_c01 (Valid/CheckC01.v) on the emitted blueprint",
                            "generator_seed": seed}, found)
     for s in sorted(set(rep.known)):
